@@ -28,6 +28,7 @@ THEOREMS = [
     "MySensors.C19.behaviour_independent_of_connection_events",
     "MySensors.C19.reconnect_drop_policy", "MySensors.C19.events_deliver_complete_lines",
     "MySensors.C19.lost_and_made_deliver_nothing", "MySensors.C19.policies_agree_without_tail",
+    "MySensors.C19.adjacent_tail_glued_general",
     "MySensors.C19.flavours_counterexample", "MySensors.C19.flavours_counterexample_outputs",
     "MySensors.C19.flavours_counterexample_wakeup",
     "MySensors.C19.flavours_partial_state", "MySensors.C19.flavours_partial_output",
